@@ -107,6 +107,12 @@ class LodOp(Harness):
             inp["n"] = SymPyInt(symx.sym_int_range("mult", -1, 2))
         elif m in ("head", "tail"):
             inp["n"] = SymPyInt(symx.sym_int_range("cnt", 0, N + 1)) if choice("n_given", [True, False]) else None
+        elif m == "sample":
+            # random.sample is an environment stub: the draw is an input (any k distinct positions in any order)
+            k = choice("k", [None] + list(range(0, N + 2)))
+            kk = min(n, 3 if k is None else k)          # dataiter.DEFAULT_PEEK_ITEMS == 3
+            inp["n"] = k
+            inp["draw"] = list(choice("draw", list(itertools.permutations(range(n), kk))))
         elif m == "getitem":
             rng = [None] + list(range(-(N + 1), N + 2))
             inp["slice"] = [choice("a", rng), choice("b", rng), choice("c", [None, 1, 2, -1])]
@@ -209,9 +215,10 @@ class LodOp(Harness):
                         if k not in exp: exp[k] = v
                 if m in ("select",): cl.extend(same_item(r, exp, f"item {it['id']}"))
                 else: cl.extend(same_item(r, exp, f"item {it['id']}"))
-        elif m in ("append", "extend", "add", "insert", "mul", "rmul", "reverse", "head", "tail", "getitem", "copy", "deepcopy"):
+        elif m in ("append", "extend", "add", "insert", "mul", "rmul", "reverse", "head", "tail", "getitem", "copy", "deepcopy", "sample"):
             L = len(rids)
             if m == "append": exp = ids + [inp["item"]["id"]]
+            elif m == "sample": exp = [ids[i] for i in sorted(inp["draw"])]        # the drawn items, in their original order
             elif m in ("extend", "add"):
                 o = inp["other"]; exp = ids + ([dict(it)["id"] for it in o.items] if isinstance(o, LoD) else [x["id"] for x in o])
             elif m == "reverse": exp = ids[::-1]
@@ -263,6 +270,6 @@ def harnesses(tier):
         hs.append(LodOp(m, 2))
     for m in ("modify", "modify_if"):
         hs.append(LodOp(m, 2 if q else 3))
-    for m in ("append", "extend", "add", "insert", "mul", "rmul", "reverse", "head", "tail", "getitem", "copy", "deepcopy"):
+    for m in ("append", "extend", "add", "insert", "mul", "rmul", "reverse", "head", "tail", "getitem", "copy", "deepcopy", "sample"):
         hs.append(LodOp(m, N if m != "getitem" else 3, "one"))
     return hs
